@@ -29,6 +29,7 @@
 import ParsleyVerif.Proofs.RunSound
 import ParsleyVerif.Proofs.Spell
 import ParsleyVerif.Generated.Facts
+import ParsleyVerif.Proofs.FactsTie
 namespace PV
 open PV.Text
 
@@ -181,19 +182,37 @@ example : Derives nvCfg (.ref 0) 1 nvABB := by
 example : ((run nvCfg 40 (.ref 0) [] 1 {}).map (fun r => r.1.res.alts.map Node.rpos)) = some [4, 3, 2] := by
   decide
 
-/-- the curtailment constant the model uses is the one in the source (regenerated on every run) -/
+/-- **the decision expressions of the parser core are the ones in the source**: `factgen -out-fn` TRANSLATES the Go
+    expressions (lenCheck of the five sequence kinds, SepBy's value/separator test, the curtailment test, the reuse
+    test of the result cache, the context-reset test) into Lean functions on every run (Generated/FactsFn.lean), and
+    the model's definitions are proved equal to them — a semantically different expression breaks this theorem, a
+    harmless rewrite does not -/
+theorem c01_translated_conditions :
+    FactsFn.untranslated = [] ∧
+    (∀ gs o sh, (G.seq .seqOf gs o).shape = some sh → ∀ len, sh.lenCheck len = FactsFn.lenCheckSeqOf len gs.length) ∧
+    (∀ gs o sh, (G.seq .seqTry gs o).shape = some sh → ∀ len, sh.lenCheck len = FactsFn.lenCheckSeqTry len gs.length) ∧
+    (∀ gs o sh, (G.seq .seqFirstOrAll gs o).shape = some sh → ∀ len, sh.lenCheck len = FactsFn.lenCheckSeqFirstOrAll len gs.length) ∧
+    (∀ g ae o sh, (G.many g ae o).shape = some sh → ∀ len, sh.lenCheck len = FactsFn.lenCheckMany ae len) ∧
+    (∀ v s ae o sh, (G.sepBy v s ae o).shape = some sh → ∀ len, sh.lenCheck len = FactsFn.lenCheckSepBy ae len) ∧
+    (∀ v s ae o sh, (G.sepBy v s ae o).shape = some sh → ∀ i, sh.lookup i = some (if FactsFn.sepByIsValue i then v else s)) ∧
+    (∀ cnt rem, decide (cnt > rem + Facts.curtailSlack) = FactsFn.curtails cnt rem) ∧
+    (∀ c idx pos ctx, cacheGet c idx pos ctx =
+      match c.find? (fun e => e.idx == idx && e.pos == pos) with
+      | none => none
+      | some e => if e.ctx.all (fun kv => !FactsFn.cacheRejects kv.2 (ctx.get kv.1)) then some e else none) ∧
+    (∀ p (n : Node), decide (n.rpos > p) = FactsFn.seqResets n.rpos p) :=
+  ⟨tie_untranslated, tie_lenCheck_seqOf, tie_lenCheck_seqTry, tie_lenCheck_seqFirstOrAll, tie_lenCheck_many,
+   tie_lenCheck_sepBy, tie_sepBy_lookup, tie_curtails, tie_cacheGet, tie_seqResets⟩
+
+/-- the structural facts that are not expressions (statement order of Memoize, what is stored as the entry's
+    context, which keys the reuse test ranges over, what the reset does) are compared as normalised source text -/
 theorem c01_facts :
-    Facts.curtailOp = ">" ∧ Facts.curtailBound = "ctx.Reader().Remaining(pos)" ∧ Facts.curtailSlack = 1 ∧
+    Facts.curtailSlack = 1 ∧
     Facts.memoizeSavedCtx = "leftRecCtx.Filter(cp)" ∧
     Facts.memoizeCallOrder = "ResultCache().Get;data.NewIntSet;p.Parse;leftRecCtx.Inc;leftRecCtx.Filter;ResultCache().Save" ∧
     Facts.cacheGetRange = "result.LeftRecCtx.Keys()" ∧
-    Facts.cacheGetReject = "result.LeftRecCtx.Get(key)>leftRecCtx.Get(key)" ∧
-    Facts.seqResetCond = "node.ReaderPos()>pos" ∧
-    Facts.seqResetBody = "{leftRecCtx=data.EmptyIntMapmergeCurtailingParsers=false}" ∧
-    Facts.lenCheckSeqOf = "len==l" ∧ Facts.lenCheckSeqTry = "len>0&&len<=l" ∧
-    Facts.lenCheckSeqFirstOrAll = "len==1||len==l" ∧ Facts.lenCheckMany = "allowEmpty||len>0" ∧
-    Facts.lenCheckSepBy = "(len==0&&allowEmpty)||len%2==1" ∧ Facts.sepByLookupCond = "i%2==0" :=
-  ⟨rfl, rfl, rfl, rfl, rfl, rfl, rfl, rfl, rfl, rfl, rfl, rfl, rfl, rfl, rfl⟩
+    Facts.seqResetBody = "{leftRecCtx=data.EmptyIntMapmergeCurtailingParsers=false}" :=
+  ⟨rfl, rfl, rfl, rfl, rfl⟩
 
 /-
   **C01 completeness — the statement as first written; now proved for the monotone fragment in Props/C01C.lean
